@@ -54,6 +54,14 @@ def daily_case(case):
     has = any(w.qualified_name == "eemeter.model_fit_metrics.cvrmse" for w in m.disqualification)
     if has != (m.error["CVRMSE"] > thr):
         bad.append(f"poor-fit disqualification present = {has} but CVRMSE {m.error['CVRMSE']} vs threshold {thr}")
+    # ... and they stay those of THIS model when another model is fitted afterwards
+    other = dict(case, seed=case["seed"] + 991, base=case.get("base", 20) * 2.5, noise=0.3)
+    other_df = F.build(other)
+    em.DailyModel().fit(em.DailyBaselineData(other_df, is_electricity_data=True), ignore_disqualification=True)
+    for k, v in ref.items():
+        if not _close(m.error[k], v, 1e-7):
+            bad.append(f"after another model was fitted, reported {k} = {m.error[k]!r} but this model's predictions give {v!r}")
+            break
     doc = m.to_dict()
     stored = doc.get("info", {}).get("error", {})
     for k in ref:
